@@ -16,6 +16,30 @@ PLAIN = ['a', 'b', 'Z', '0', ' ', '  ', '#', '%s', '{', '}', '$', 'Ã©', 'ÃŸ', 'ä
 PLAIN_BYTES = ['a', 'b', 'Z', '0', ' ', '#', '%s', '{', '}', '$', '\t', 'xy', '-', '~']
 
 
+U16_BORDERS = [0, 1, 0x7f, 0x80, 0xff, 0x100, 0x7ff, 0x800, 0xd7ff, 0xd800, 0xdbff, 0xdc00, 0xdfff, 0xe000, 0xfffd, 0xfffe, 0xffff]
+U32_BORDERS = [0xffff, 0x10000, 0x1f600, 0x10fffe, 0x10ffff, 0xd800, 0xdfff, 0xe0001, 0x2028, 0xfeff]
+ESC_NAMES = ['DIGIT ONE', 'OX', 'LINE FEED', 'BOX DRAWINGS LIGHT DIAGONAL UPPER CENTRE TO MIDDLE LEFT AND MIDDLE RIGHT TO LOWER CENTRE', 'CJK UNIFIED IDEOGRAPH-4E2D',
+             'HANGUL SYLLABLE GAG', 'latin small letter e with acute', 'Grinning Face', 'ZERO WIDTH NO-BREAK SPACE', 'TAG LATIN SMALL LETTER A']
+
+
+def gen_escape(cs, is_bytes):
+    """one escape sequence built from its grammar (numeric ones at the borders of their ranges as often as inside)"""
+    k = cs.choice(5 if not is_bytes else 2)
+    if k == 0:
+        v = cs.pick([0, 0x7f, 0x80, 0xff, 0x0a, 0x27, 0x5c]) if cs.bool() else cs.byte()
+        return ('\\x%02x' if cs.bool(200) else '\\x%02X') % v
+    if k == 1:
+        v = cs.pick([0, 7, 8, 0o77, 0o100, 0o177, 0o200, 0o377, 0o400, 0o777]) if cs.bool() else cs.choice(512)
+        return '\\' + (('%o' % v) if cs.bool() else ('%03o' % v))
+    if k == 2:
+        v = cs.pick(U16_BORDERS) if cs.bool() else cs.choice(0x10000)
+        return ('\\u%04x' if cs.bool(200) else '\\u%04X') % v
+    if k == 3:
+        v = cs.pick(U32_BORDERS) if cs.bool() else cs.choice(0x110000)
+        return ('\\U%08x' if cs.bool(200) else '\\U%08X') % v
+    return '\\N{%s}' % cs.pick(ESC_NAMES)
+
+
 def gen_digits(cs, digs='0123456789', first=None, maxn=6):
     n = 1 + cs.choice(maxn)
     out = cs.pick(first or digs)
@@ -98,7 +122,7 @@ def gen_body(cs, q, raw, is_bytes, restrict, fmode=False):
             if fmode:
                 piece = piece.replace('{', '{{').replace('}', '}}')
         elif k < 6 and not no_bs:
-            piece = cs.pick(BYTES_ESC if is_bytes else SIMPLE_ESC)
+            piece = cs.pick(BYTES_ESC if is_bytes else SIMPLE_ESC) if cs.bool(150) else gen_escape(cs, is_bytes)
             if raw and piece in ("\\'", '\\"'):
                 pass
             if fmode and '{' in piece and not raw:
